@@ -189,7 +189,7 @@ theorem kind_de (bs : List Nat) :
       = match bs with
         | [] => none
         | k :: r => some (decodeKind k, r) := by
-  unfold Gen.S.MatchKind.deserialize_from_slice Gen.Rs.index Gen.Rs.slice_from Gen.Rs.kind_from_u8
+  unfold Gen.S.MatchKind.deserialize_from_slice Gen.Rs.byte_at Gen.Rs.slice_from Gen.Rs.kind_from_u8
   cases bs <;> simp
 
 theorem loop_de {α β : Type} (f' : List Nat → Option (β × List Nat))
